@@ -33,6 +33,7 @@ type AOut struct {
 	XA    Dec    `json:"xa"`    // first operand after the call
 	YA    Dec    `json:"ya"`    // second operand after the call
 	Panic string `json:"panic"` // recovered panic ("" = none)
+	CtxA  Ctx    `json:"ctxa"`  // the Context after the call
 }
 
 var fresh = Dec{F: -1, C: []int{}}
@@ -66,6 +67,7 @@ func runA(op string, cj Ctx, xj, yj Dec, q int, al string, pre Dec) (out AOut) {
 			out.Panic = fmt.Sprint(r)
 			out.Res = Dec{F: -1, C: []int{}}
 			out.XA, out.YA = out.Res, out.Res
+			out.CtxA = cj
 		}
 	}()
 	var fl apd.Condition
@@ -123,6 +125,7 @@ func runA(op string, cj Ctx, xj, yj Dec, q int, al string, pre Dec) (out AOut) {
 	out.Err = errStr(err)
 	out.XA = encDec(x)
 	out.YA = encDec(y)
+	out.CtxA = encCtx(c)
 	return out
 }
 
@@ -138,7 +141,7 @@ func mkA(op string, c Ctx, x, y Dec, q int, al string, pre Dec) AEv {
 // goroutine is abandoned. After maxLeaks such calls the driver stops early.
 func runAGuard(op string, c Ctx, x, y Dec, q int, al string, pre Dec) AOut {
 	if leaks >= maxLeaks {
-		return AOut{Panic: "skipped-after-timeouts", Res: none, XA: none, YA: none}
+		return AOut{Panic: "skipped-after-timeouts", Res: none, XA: none, YA: none, CtxA: c}
 	}
 	ch := make(chan AOut, 1)
 	go func() { ch <- runA(op, c, x, y, q, al, pre) }()
@@ -149,7 +152,7 @@ func runAGuard(op string, c Ctx, x, y Dec, q int, al string, pre Dec) AOut {
 		return o
 	case <-t.C:
 		leaks++
-		return AOut{Panic: "timeout", Res: none, XA: none, YA: none}
+		return AOut{Panic: "timeout", Res: none, XA: none, YA: none, CtxA: c}
 	}
 }
 
